@@ -32,7 +32,9 @@ class FnContract:
         self.ghost = kw.pop('ghost', {})
         self.props = kw.pop('props', [])            # property ids this contract serves
         self.note = kw.pop('note', '')
-        self.decreases = kw.pop('decreases', None)  # for recursion
+        self.decreases = kw.pop('decreases', None)  # recursion: list of integer expressions over the parameters, compared
+                                                    # lexicographically; checked at calls inside the same rec_group
+        self.rec_group = kw.pop('rec_group', None)  # name of the group of mutually recursive functions
         self.known = kw.pop('known', [])            # except_known carve-outs
         self.terminates = kw.pop('terminates', None)
         self.lemmas = kw.pop('lemmas', [])            # proved at every normal exit, before ensures; may name locals
@@ -40,6 +42,7 @@ class FnContract:
                                                       # proved as postconditions, assumed across a callee that calls the closure
         self.ghost_code = kw.pop('ghost_code', {})    # statement anchor (unparsed) -> ['ghost = expr', ...] run after it
         self.calls = kw.pop('calls', {})              # opaque callables held in locals: name -> {'requires': [...], 'returns': T}
+        self.class_alias = kw.pop('class_alias', None)       # real class name -> registry name used in this function
         self.list_literals = kw.pop('list_literals', None)   # element type of list literals that initialise no declared local
         self.ghost_update = kw.pop('ghost_update', [])   # closures: ghost updates the callee applies after each call
         if kw:
@@ -81,7 +84,7 @@ class Registry:
         if c.name in self.classes:
             raise KeyError('duplicate class contract name ' + c.name)
         self.classes[c.name] = c
-        self.by_real[(c.module, c.real)] = c.name
+        self.by_real.setdefault((c.module, c.real), c.name)     # the first registration is the default view
         self.class_ids[c.name] = len(self.class_ids) + 1
         return c
 
@@ -104,7 +107,13 @@ class Registry:
 
     def class_name(self, module, real):
         "registry name of the class `real` defined in `module` (None if it has no contract)"
-        return self.by_real.get((module, real))
+        n = self.by_real.get((module, real))
+        # a real class registered under several names (one view per element type): the function under proof says
+        # which view it uses (contract clause class_alias={'TokenScanner': 'CssTokenScanner'})
+        cur = self.fns.get(self.current_fn) if getattr(self, 'current_fn', None) else None
+        if cur is not None and cur.class_alias and real in cur.class_alias:
+            return cur.class_alias[real]
+        return n
 
     # -- class helpers
     def field_decl(self, clsname, field):
